@@ -113,6 +113,7 @@ pub struct World {
     pub stall: AtomicBool,
     pub exec_count: AtomicU64,
 }
+pub fn trace_on() -> bool { static T: std::sync::OnceLock<bool> = std::sync::OnceLock::new(); *T.get_or_init(|| std::env::var("QV_TRACE").is_ok()) }
 pub fn node_code(n: Node) -> u64 { ((n.kind as u64) << 32) | n.idx as u64 }
 impl World {
     pub fn new(prog: Program, n_ext: usize) -> Arc<Self> {
@@ -185,6 +186,7 @@ fn eval<'a, C: Config>(w: &'a World, me: Node, e: &'a Expr, engine: &'a TrackedE
 async fn run_node<C: Config>(w: &World, me: Node, engine: &TrackedEngine<C>) -> i64 {
     w.log.lock().unwrap().push(Event::Exec(me));
     w.exec_count.fetch_add(1, Ordering::SeqCst);
+    if trace_on() { eprintln!("      exec {}", me.short()); }
     if w.panic_node.load(Ordering::SeqCst) == node_code(me) { panic!("executor of {} panics on request", me.short()); }
     while w.stall.load(Ordering::SeqCst) && w.stall_node.load(Ordering::SeqCst) == node_code(me) {
         tokio::task::yield_now().await;
@@ -196,6 +198,7 @@ async fn run_node<C: Config>(w: &World, me: Node, engine: &TrackedEngine<C>) -> 
         eval(w, me, e, engine).await
     };
     w.log.lock().unwrap().push(Event::Done { node: me, value: v });
+    if trace_on() { eprintln!("      done {} = {}", me.short(), v); }
     v
 }
 
@@ -257,24 +260,34 @@ pub async fn open_db(w: &Arc<World>, disk: &Arc<Shared>, cache_capacity: u64, wo
 }
 
 /// from-scratch evaluation (the oracle of C01): value of `n` for given inputs / external
-/// values, for acyclic programs; `None` when an input is unset or a cycle is met
-pub fn oracle(prog: &Program, inputs: &HashMap<u32, i64>, ext: &HashMap<u32, i64>, n: Node, depth: u32) -> Option<i64> {
-    if depth > 200 { return None; }
+/// values; `None` when an input is unset or when the evaluation meets a dependency cycle
+/// (then the answer depends on where the cycle is entered and is judged by the model only)
+pub fn oracle(prog: &Program, inputs: &HashMap<u32, i64>, ext: &HashMap<u32, i64>, n: Node, _depth: u32) -> Option<i64> {
+    let mut stack = Vec::new();
+    oracle_in(prog, inputs, ext, n, &mut stack)
+}
+fn oracle_in(prog: &Program, inputs: &HashMap<u32, i64>, ext: &HashMap<u32, i64>, n: Node, stack: &mut Vec<Node>) -> Option<i64> {
     match n.kind {
         Kind::Input => inputs.get(&n.idx).copied(),
         Kind::External => ext.get(&n.idx).copied(),
-        _ => ev(prog, inputs, ext, prog.exprs.get(&n)?, depth),
+        _ => {
+            if stack.contains(&n) { return None; }
+            stack.push(n);
+            let r = ev(prog, inputs, ext, prog.exprs.get(&n)?, stack);
+            stack.pop();
+            r
+        }
     }
 }
-fn ev(p: &Program, i: &HashMap<u32, i64>, x: &HashMap<u32, i64>, e: &Expr, d: u32) -> Option<i64> {
+fn ev(p: &Program, i: &HashMap<u32, i64>, x: &HashMap<u32, i64>, e: &Expr, d: &mut Vec<Node>) -> Option<i64> {
     Some(match e {
         Expr::Const(z) => *z,
-        Expr::Read(n) => oracle(p, i, x, *n, d + 1)?,
+        Expr::Read(n) => oracle_in(p, i, x, *n, d)?,
         Expr::Add(a, b) => ev(p, i, x, a, d)?.wrapping_add(ev(p, i, x, b, d)?),
         Expr::Mul(a, b) => ev(p, i, x, a, d)?.wrapping_mul(ev(p, i, x, b, d)?),
         Expr::Mod(a, m) => ev(p, i, x, a, d)?.rem_euclid(*m),
         Expr::Lt(a, b) => (ev(p, i, x, a, d)? < ev(p, i, x, b, d)?) as i64,
         Expr::If(c, a, b) => if ev(p, i, x, c, d)? != 0 { ev(p, i, x, a, d)? } else { ev(p, i, x, b, d)? },
-        Expr::Group(ns) => { let mut s = 0i64; for n in ns { s = s.wrapping_add(oracle(p, i, x, *n, d + 1)?); } s }
+        Expr::Group(ns) => { let mut s = 0i64; for n in ns { s = s.wrapping_add(oracle_in(p, i, x, *n, d)?); } s }
     })
 }
